@@ -490,7 +490,24 @@ impl StakeKeeper {
             .unwrap();
 
         let remaining_percentage = Decimal::one() - percentage;
-        validator_info.stake = validator_info.stake.mul_floor(remaining_percentage);
+
+        // update all stakers; the stake of the validator is the (whole tokens part of the) sum
+        // of the scaled shares, scaling the rounded total separately would let it drift below them
+        let mut total_shares = Decimal::zero();
+        for delegator in validator_info.stakers.iter() {
+            let shares = STAKES.update(
+                staking_storage,
+                (delegator, validator),
+                |stake| -> AnyResult<_> {
+                    let mut stake = stake.expect("all stakers in validator_info should exist");
+                    stake.stake *= remaining_percentage;
+
+                    Ok(stake)
+                },
+            )?;
+            total_shares += shares.stake;
+        }
+        validator_info.stake = Uint128::new(1).mul_floor(total_shares);
 
         // if the stake is completely gone, we clear all stakers and reinitialize the validator
         if validator_info.stake.is_zero() {
@@ -499,20 +516,6 @@ impl StakeKeeper {
                 STAKES.remove(staking_storage, (delegator, validator));
             }
             validator_info.stakers.clear();
-        } else {
-            // otherwise we update all stakers
-            for delegator in validator_info.stakers.iter() {
-                STAKES.update(
-                    staking_storage,
-                    (delegator, validator),
-                    |stake| -> AnyResult<_> {
-                        let mut stake = stake.expect("all stakers in validator_info should exist");
-                        stake.stake *= remaining_percentage;
-
-                        Ok(stake)
-                    },
-                )?;
-            }
         }
         // go through the queue to slash all pending unbondings
         let mut unbonding_queue = UNBONDING_QUEUE
